@@ -63,13 +63,19 @@ func main() {
 		}
 	}
 	outcomes := map[string]int{}
-	ex := &symgo.Explorer{W: l.World, Fn: f, Cfg: cfg, Workers: *workers, Solver: sym.Z3Old, MaxPaths: *maxPaths}
+	tags := map[string]int{}
+	ex := &symgo.Explorer{W: l.World, Fn: f, Cfg: cfg, Workers: *workers, Solver: sym.Z3New, MaxPaths: *maxPaths}
 	ex.OnPath = func(r *symgo.RunResult) {
 		key := r.Status.String()
 		if r.Status != symgo.StOK {
 			key += ": " + r.Msg + " @ " + r.Site
 		}
 		outcomes[key]++
+		for _, rec := range r.Trace {
+			if rec.Kind == symgo.RecConcretize {
+				tags["concretize:"+rec.Tag]++
+			}
+		}
 		if *verbose || (r.Status != symgo.StOK && outcomes[key] <= 2) {
 			var in []string
 			for _, n := range r.VarOrder {
@@ -82,6 +88,9 @@ func main() {
 			if r.Status == symgo.StPanic {
 				fmt.Println("   stack:", r.Stack)
 			}
+			if r.Status == symgo.StUnsupported {
+				fmt.Println("   site:", r.Site)
+			}
 		}
 	}
 	if err := ex.Explore(nil); err != nil {
@@ -89,6 +98,7 @@ func main() {
 		os.Exit(2)
 	}
 	fmt.Println(ex.Stats.Summary())
+	fmt.Println("tags:", tags)
 	keys := []string{}
 	for k := range outcomes {
 		keys = append(keys, k)
